@@ -50,6 +50,9 @@ pub fn run(prop: &str, tier: &str) -> i32 {
             run.rule = format!("{}; x all 2^n masks (n <= 4 quick / 5 thorough): each node compared bitwise with the full build, so every mask-flip edge is covered by transitivity", E1_RULE);
             let mx = if run.thorough() { 5 } else { 4 };
             run_e1_perm(&mut run, &[1, 2, 3], &[false, true], 999, true, move |s| c07_12_13::eval_c07_with(s, mx));
+            let items = c07_12_13::c07_large_items(run.thorough());
+            run.family(format!("large states (2500-5000 uniform generators in 1D/2D/3D, boxes of 1, 10 and 1000 length units; dense cluster + six isolated generators) under sparse structured masks (single cells at every face / centre / corner, blobs of 8 and n/16, a rod through the box, every 16th cell): {} (state, mask) nodes", items.iter().map(|i| i.1.len()).sum::<usize>()), items.len() as u64);
+            run.explore(&items, c07_12_13::eval_c07_item, |s| J::s(s.0.id.clone()));
         }
         "C12" => {
             run.rule = format!("{}; x all 2^n masks (n <= 4) x routes (direct, From<&VoronoiIntegrator>, with faces)", E1_RULE);
@@ -281,7 +284,10 @@ pub fn replay(path: &str) -> i32 {
         "c10-duals" => c10_11::eval_dual_orientation(&st),
         "c14" => c14_15::eval_c14(&st),
         "c15" => c14_15::eval_c15(&st),
-        "c07" => c07_12_13::eval_c07_with(&st, 5),
+        "c07" => match get("mask") {
+            Some(m) if st.n() > 5 => c07_12_13::eval_c07_masks(&st, vec![parse_mask(&m)]),
+            _ => c07_12_13::eval_c07_with(&st, 5),
+        },
         "c12" => c07_12_13::eval_c12(&st),
         "c13" => c07_12_13::eval_c13(&st),
         _ => {
